@@ -216,6 +216,52 @@ pub fn run_box_case(bytes: &[u8]) -> (Vec<String>, bool, Vec<u32>) {
                     cx.v(format!("letting go of a Box changed the arena: chunk_capacity/allocated_bytes {:?} -> {:?}", cap0, arena_cap(b)));
                 }
             }
+            1 if g(3) % 3 == 2 => {
+                // zero-sized elements: every slice has the same (empty) layout, only the length tells them apart
+                let len = (g(1) % 6) as usize;
+                let s: BBox<[Zs<0>]> = BBox::from_iter_in((0..len).map(|_| Zs::new()), b);
+                let t: Box<[Zs<1>]> = (0..len).map(|_| Zs::new()).collect();
+                cx.transfers += 1;
+                macro_rules! conv {
+                    ($n:expr) => {{
+                        match (BBox::<[Zs<0>; $n]>::try_from(s), Box::<[Zs<1>; $n]>::try_from(t)) {
+                            (Ok(a), Ok(c)) => {
+                                drop(a);
+                                drop(c);
+                            }
+                            (Err(a), Err(c)) => {
+                                cx.failed_conv += 1;
+                                if a.len() != c.len() {
+                                    cx.v(format!("failed TryFrom handed back a boxed slice of {} zero-sized elements instead of {}", a.len(), c.len()));
+                                }
+                                drop(a);
+                                drop(c);
+                            }
+                            (Ok(a), Err(c)) => {
+                                cx.v(format!("Box<[Zst]> of length {len} converted into Box<[Zst; {}]> where std refuses", $n));
+                                drop(a);
+                                drop(c);
+                            }
+                            (Err(a), Ok(c)) => {
+                                cx.v(format!("Box<[Zst]> of length {len} refused to convert into Box<[Zst; {}]> where std converts", $n));
+                                drop(a);
+                                drop(c);
+                            }
+                        }
+                    }};
+                }
+                match g(2) % 4 {
+                    0 => conv!(0),
+                    1 => conv!(2),
+                    2 => conv!(3),
+                    _ => conv!(5),
+                }
+                let (zm, zd) = z_counts(0);
+                let (tm, td) = z_counts(1);
+                if (zm, zd) != (tm, td) {
+                    cx.v(format!("zero-sized elements: created/dropped {:?}, std {:?}", (zm, zd), (tm, td)));
+                }
+            }
             1 => {
                 let v0 = g(1) as u32;
                 let s: BBox<[El<0>; 3]> = BBox::new_in([El::new(v0), El::new(v0 + 1), El::new(v0 + 2)], b);
